@@ -7,6 +7,12 @@
   input    := nil | nilptr | <hex> | <hex>* | foreign
   observation := P=<out>;S=<out>;A=<out>;MP=<out>;MS=<out>;MA=<out>      (S/MS = n/a when the input is not of the strict type)
   out := ok:<hex> | ok:nil | err:checks:<p,p,…> | err:nonoptional | err:type | …
+    c09 hist str <schema A> // <schema B> // <hop>* // t=<k> in=<hex> | <input> @ <observation>;H=<ok|flags>
+      schema := <ctorPtr 0/1> <modifier>* ; <n> <check>*n      (heap cells 0 and 1)
+      hop    := run:<P|S|A|MP|MS|MA>:<j>:<v|n> | clone:<dst>:<src> | chain:<j>:<modifier> | fresh:<j>
+      The history is run on `Prim.exec`'s step function with the `pinned` implementation; the model
+      observation is what the six entry points answer on cell k afterwards.
+    c09 hist gen … / c09 frame …   echoed (frame: the model's answer is the constant `frame:same`)
   Output "<model observation>\t<spec verdict>": the spec verdict echoes the observation when all entry
   points agree (Parse = ParseAny = MustParse = MustParseAny, and StrictParse = MustStrictParse = Parse
   when applicable); for `gen` lines (types whose engine path is not modelled) the model echoes too.
@@ -49,6 +55,10 @@ def judge (obs : String) : Option String :=
     | k :: rest => some (k, "=".intercalate rest)
     | _ => none
   let get := fun k => (kv.find? (·.1 == k)).map (·.2)
+  match get "H" with
+  | some h => if h != "ok" then some ("H-" ++ h) else judgeP get
+  | none => judgeP get
+where judgeP (get : String → Option String) : Option String :=
   match get "P" with
   | none => some "no-parse-observation"
   | some p =>
@@ -57,6 +67,94 @@ def judge (obs : String) : Option String :=
       | some v => v != "n/a" && v != p
       | none => true
     bad.map fun k => k ++ "-differs-from-Parse"
+
+abbrev HCell := Cell SPred SOw Bytes Unit
+
+def parseSchema (toks : List String) : Option SI :=
+  match toks with
+  | cp :: rest =>
+    let mods := rest.takeWhile (· ≠ ";")
+    let after := (rest.dropWhile (· ≠ ";")).drop 1
+    match after with
+    | n :: ctoks =>
+      match n.toNat?.bind (fun n => parseChecks n ctoks) with
+      | some (cs, []) =>
+        let base : SI := { checks := cs, ptrSchema := cp == "1", ctorPtr := cp == "1", isRefine := isRefineP }
+        mods.foldlM applyMod base
+      | _ => none
+    | _ => none
+  | _ => none
+
+def parseEP : String → Option EP
+  | "P" => some .parse | "S" => some .strict | "A" => some .parseAny
+  | "MP" => some .mustParse | "MS" => some .mustStrict | "MA" => some .mustParseAny
+  | _ => none
+
+/-- One hop of the harness, turned into a `Prim.Op` against the current heap and executed by `Prim.step`. -/
+def hopStep (inB : Bytes) (h : List HCell) (tok : String) : Option (List HCell) :=
+  match tok.splitOn ":" with
+  | ["run", ep, j, w] => do
+    let ep ← parseEP ep
+    let j ← j.toNat?
+    let c ← h[j]?
+    let x : Input Bytes := match c.cfg.ptrSchema, w == "n" with
+      | true, true => .nilPtr
+      | false, true => .nil
+      | true, false => .ptr inB
+      | false, false => .val inB
+    -- the harness skips strict calls whose input is not of the static type (untyped nil on a value schema)
+    pure (step pinned Str.env h (.run ep j x)).1
+  | ["clone", d, s] => do
+    let d ← d.toNat?
+    let s ← s.toNat?
+    let _ ← h[d]?
+    let _ ← h[s]?
+    pure (step pinned Str.env h (.cloneFrom .copyAll d s)).1
+  | "chain" :: j :: modTok => do
+    let j ← j.toNat?
+    let c ← h[j]?
+    let _ ← applyMod c.cfg (":".intercalate modTok)
+    pure (step pinned Str.env h (.chain j fun c => (applyMod c (":".intercalate modTok)).getD c)).1
+  | ["fresh", j] => do
+    let j ← j.toNat?
+    let c ← h[j]?
+    pure (step pinned Str.env h (.mk { ptrSchema := c.cfg.ptrSchema, ctorPtr := c.cfg.ptrSchema, isRefine := isRefineP })).1
+  | _ => none
+
+def parseInput (inTok : String) : Option (Input Bytes) :=
+  if inTok == "nil" then some .nil
+  else if inTok == "nilptr" then some .nilPtr
+  else if inTok == "foreign" then some .foreign
+  else if inTok.endsWith "*" then (unhex (inTok.dropEnd 1).toString).map .ptr
+  else (unhex inTok).map .val
+
+def observe (i : SI) (x : Input Bytes) : String :=
+  let p := renderOut (parse Str.env i x)
+  let strictOk : Bool := match x with
+    | .val _ => !i.ptrSchema
+    | .ptr _ => i.ptrSchema
+    | .nilPtr => i.ptrSchema
+    | _ => false
+  let s := if strictOk then renderOut (strictParse Str.env i x) else "n/a"
+  s!"P={p};S={s};A={p};MP={p};MS={s};MA={p}"
+
+def handleHistStr (body input : String) : Option String := do
+  match body.splitOn " // " with
+  | [a, b, hops, tail] =>
+    let ca ← parseSchema ((a.splitOn " ").filter (· ≠ ""))
+    let cb ← parseSchema ((b.splitOn " ").filter (· ≠ ""))
+    let (t, inB) ← match (tail.splitOn " ").filter (· ≠ "") with
+      | [t, i] => do
+        let t ← (t.drop 2).toString.toNat?
+        let i ← unhex (i.drop 3).toString
+        pure (t, i)
+      | _ => none
+    let h0 : List HCell := (step pinned Str.env (step pinned Str.env [] (.mk ca)).1 (.mk cb)).1
+    let h ← ((hops.splitOn " ").filter (· ≠ "")).foldlM (hopStep inB) h0
+    let c ← h[t]?
+    let x ← parseInput input.trimAscii.toString
+    pure (observe c.cfg x ++ ";H=ok")
+  | _ => none
 
 def handleLine (line : String) : String :=
   let (lhs, impl) := match line.splitOn " @ " with
@@ -71,6 +169,12 @@ def handleLine (line : String) : String :=
   | [schema, input] =>
     match (schema.splitOn " ").filter (· ≠ "") with
     | "c09" :: "gen" :: _ => (impl.getD "-") ++ "\t" ++ spec
+    | "c09" :: "hist" :: "gen" :: _ => (impl.getD "-") ++ "\t" ++ spec
+    | "c09" :: "frame" :: _ => "frame:same" ++ "\t" ++ (impl.getD "-")
+    | "c09" :: "hist" :: "str" :: _ =>
+      match handleHistStr (schema.drop "c09 hist str ".length).toString input with
+      | some m => m ++ "\t" ++ spec
+      | none => "bad-op"
     | "c09" :: "str" :: cp :: rest =>
       let mods := rest.takeWhile (· ≠ ";")
       let after := (rest.dropWhile (· ≠ ";")).drop 1
